@@ -3,37 +3,48 @@
 From FlacReaders Require Import Spec Lists_proofs.
 Open Scope N_scope.
 
-(* 2 channels, 16 bit, frames of 3, 3 and 2 PCM frames, a seek table with a point at frame 0 and at
-   frame 2 (sample 6) and a trailing placeholder *)
+(* 2 channels, 16 bit, frames of 15, 15 and 2 PCM frames (only the last block may be short), a seek
+   table with a point at frame 0 and at frame 2 (sample 30) and a trailing placeholder *)
+Definition ramp (a : Z) (n : nat) : list Z := map (fun i => (a + Z.of_nat i)%Z) (seq 0 n).
 Definition ex_slots : list slot :=
-  [SFrame [[1; 2; 3]; [-1; -2; -3]]%Z; SFrame [[4; 5; 6]; [-4; -5; -6]]%Z; SFrame [[700; 8]; [-700; -8]]%Z].
+  [SFrame [ramp 1 15; ramp (-100) 15]; SFrame [ramp 16 15; ramp (-200) 15]; SFrame [[700; 8]; [-700; -8]]%Z].
 
 Definition ex_file (rev : revision) : file :=
-  {| f_slots := ex_slots; f_channels := 2; f_bps := 16; f_total := Some 8;
-     f_table := Some [Defined 0 0; Defined 6 2; Placeholder];
+  {| f_slots := ex_slots; f_channels := 2; f_bps := 16; f_total := Some 32;
+     f_table := Some [Defined 0 0; Defined 30 2; Placeholder];
      f_seekable := true; f_endian := LE; f_profile := Debug; f_usize_bits := 64; f_rev := rev |}.
+
+(* expected data, by position *)
+Definition seg (p k : N) : list Z := takeN k (dropN p (pcm (ex_file Repaired))).
+Definition bseg (p k : N) : list N := takeN k (dropN p (pcm_bytes (ex_file Repaired))).
+Definition cseg (p k : N) : list (list Z) :=
+  [takeN k (dropN p (chan_pcm (ex_file Repaired) 0)); takeN k (dropN p (chan_pcm (ex_file Repaired) 1))].
 
 Lemma ex_file_valid : valid_file (ex_file Repaired).
 Proof.
-  constructor; cbn; try lia; try reflexivity.
+  constructor; cbn -[ex_slots]; try lia; try reflexivity.
   - split; vm_compute; congruence.
-  - repeat constructor; eexists; (split; [reflexivity|]); (split; [reflexivity|]);
+  - unfold ex_slots. repeat constructor; eexists; (split; [reflexivity|]); (split; [reflexivity|]);
       (split; [reflexivity|]); repeat constructor.
+  - intros _ pre s post E Hne. unfold ex_slots in E.
+    destruct pre as [|a [|b [|c pre]]]; cbn in E; inversion E; subst; try (vm_compute; reflexivity).
+    + congruence.
+    + destruct pre; discriminate.
   - intros o i [H|[H|[H|[]]]]; inversion H; subst; vm_compute; split; congruence.
 Qed.
 
 Definition ex_sample_ops : list sop :=
-  [SRead 4; SFill; SConsume 1; SRead 0; SNext; SFill; SConsume 6; SRead 100; SRead 5; SFill; SNext; SRead 1].
+  [SRead 4; SFill; SConsume 25; SRead 0; SNext; SFill; SConsume 30; SRead 100; SRead 5; SFill; SNext; SRead 1].
 
 Definition ex_seek_ops : list sop :=
-  [SRead 5; SSeek 7; SFill; SSeek 2; SRead 3; SSeek 8; SFill; SSeek 9; SFill; SSeek 0; SNext].
+  [SRead 5; SSeek 31; SFill; SSeek 14; SRead 3; SSeek 32; SFill; SSeek 33; SFill; SSeek 0; SNext].
 
 Definition ex_byte_ops : list bop :=
-  [BRead 5; BSeek (End_ (-4)); BFill; BSeek (Current (-27)); BRead 3; BSeek (Current 0); BSeek (Start 33);
-   BRead 2; BSeek (End_ 0); BFill; BSeek (Current (-33)); BSeek (End_ 1)].
+  [BRead 5; BSeek (End_ (-4)); BFill; BSeek (Current (-123)); BRead 3; BSeek (Current 0); BSeek (Start 129);
+   BRead 2; BSeek (End_ 0); BFill; BSeek (Current (-129)); BSeek (End_ 1)].
 
 Definition ex_chan_ops : list cop :=
-  [CFill; CConsume 2; CFill; CSeek 7; CFill; CConsume 1; CFill; CFill; CSeek 4; CFill; CSeek 9; CFill].
+  [CFill; CConsume 14; CFill; CSeek 31; CFill; CConsume 1; CFill; CFill; CSeek 29; CFill; CSeek 33; CFill].
 
 (* evaluate a concrete history and check the op preconditions entry by entry *)
 Ltac forall_trace :=
